@@ -249,3 +249,117 @@ def as_variable_id():
                 header='''pub fn as_variable_id(decision_variables: &HashMap<VariableID, DecisionVariable>, id: u64) -> (r: Result<VariableID, ParseError>)
     ensures r is Ok <==> decision_variables@.contains_key(VariableID(id)), r is Ok ==> r->Ok_0 == VariableID(id),
         r is Err ==> err_at(r->Err_0, RawParseError::UndefinedVariableID { id: VariableID(id) }, seq![]),''')
+
+
+HINT_CTX = '(HashMap<VariableID, DecisionVariable>, HashMap<ConstraintID, Constraint>)'
+HINT_SIG = 'fn parse( self, (decision_variable, constraints): &Self::Context, ) -> Result<Self::Output, ParseError>'
+HINT_HDR = '#[verifier::loop_isolation(false)]\nfn parse(self, context: &Self::Context) -> (r: Result<Self::Output, ParseError>)'
+HINT_BIND = ' let decision_variable = &context.0; let constraints = &context.1;'
+VAR_LOOP = '''invariant
+                forall|i: int| 0 <= i < %(it)s.index@ ==> decision_variable@.contains_key(VariableID(#[trigger] self.decision_variables[i])),
+                forall|i: int, j: int| 0 <= i < j < %(it)s.index@ ==> #[trigger] self.decision_variables[i] != #[trigger] self.decision_variables[j],
+                forall|k: VariableID| #[trigger] variables@.contains(k) <==> exists|i: int| 0 <= i < %(it)s.index@ && #[trigger] self.decision_variables[i] == k.0,'''
+
+
+def one_hot_parse():
+    return P('Parse for v1::OneHot', 'instance.rs', 'v1::OneHot', 'OneHot', HINT_CTX, '''
+    // the constraint id and every variable id are defined, variable ids are not repeated
+    open spec fn p_ok(self, c: HintCtx) -> bool {
+        c.1@.contains_key(ConstraintID(self.constraint_id)) && vars_defined(c, self.decision_variables@) && u64s_distinct(self.decision_variables@)
+    }
+    open spec fn p_out(self, c: HintCtx, o: OneHot) -> bool { o.id == ConstraintID(self.constraint_id) && var_set_of(o.variables@, self.decision_variables@) }
+    open spec fn p_err(self, c: HintCtx, e: ParseError) -> bool {
+        ||| (!c.1@.contains_key(ConstraintID(self.constraint_id))
+                && err_at(e, RawParseError::UndefinedConstraintID { id: ConstraintID(self.constraint_id) }, seq![ctx(sl!("ommx.v1.OneHot"), sl!("constraint_id"))]))
+        ||| undef_var_err(e, c, self.decision_variables@, sl!("ommx.v1.OneHot"), sl!("decision_variables"))
+        ||| dup_var_err(e, self.decision_variables@, sl!("ommx.v1.OneHot"), sl!("decision_variables"))
+    }
+''', sig=HINT_SIG, header=HINT_HDR, proofs=[('start', HINT_BIND)],
+             closures=[dict(params='e', typed='e: ParseError', ret='ParseError', ensures='wrapped(ret, e, message, sl!("constraint_id"))'),
+                       dict(params='e', typed='e: ParseError', ret='ParseError', ensures='wrapped(ret, e, message, sl!("decision_variables"))')],
+             rsubs=[(r'let mut variables = BTreeSet::new\(\);', 'let mut variables: BTreeSet<VariableID> = BTreeSet::new();', 1)],
+             loops=[dict(kind='for', it='it_1', inv=VAR_LOOP % dict(it='it_1'), body_proof=' proof { assert(*v == self.decision_variables@[it_1.index@ as int]); }')])
+
+
+def sos1_parse():
+    return P('Parse for v1::Sos1', 'instance.rs', 'v1::Sos1', 'Sos1', HINT_CTX, '''
+    open spec fn p_ok(self, c: HintCtx) -> bool {
+        &&& c.1@.contains_key(ConstraintID(self.binary_constraint_id))
+        &&& cons_defined(c, self.big_m_constraint_ids@) && u64s_distinct(self.big_m_constraint_ids@)
+        &&& vars_defined(c, self.decision_variables@) && u64s_distinct(self.decision_variables@)
+    }
+    open spec fn p_out(self, c: HintCtx, o: Sos1) -> bool {
+        o.binary_constraint_id == ConstraintID(self.binary_constraint_id) && con_set_of(o.big_m_constraint_ids@, self.big_m_constraint_ids@) && var_set_of(o.variables@, self.decision_variables@)
+    }
+    open spec fn p_err(self, c: HintCtx, e: ParseError) -> bool {
+        ||| (!c.1@.contains_key(ConstraintID(self.binary_constraint_id))
+                && err_at(e, RawParseError::UndefinedConstraintID { id: ConstraintID(self.binary_constraint_id) }, seq![ctx(sl!("ommx.v1.Sos1"), sl!("binary_constraint_id"))]))
+        ||| undef_con_err(e, c, self.big_m_constraint_ids@, sl!("ommx.v1.Sos1"), sl!("big_m_constraint_ids"))
+        ||| dup_con_err(e, self.big_m_constraint_ids@, sl!("ommx.v1.Sos1"), sl!("big_m_constraint_ids"))
+        ||| undef_var_err(e, c, self.decision_variables@, sl!("ommx.v1.Sos1"), sl!("decision_variables"))
+        ||| dup_var_err(e, self.decision_variables@, sl!("ommx.v1.Sos1"), sl!("decision_variables"))
+    }
+''', sig=HINT_SIG, header=HINT_HDR, proofs=[('start', HINT_BIND)],
+             closures=[dict(params='e', typed='e: ParseError', ret='ParseError', ensures='wrapped(ret, e, message, sl!("binary_constraint_id"))'),
+                       dict(params='e', typed='e: ParseError', ret='ParseError', ensures='wrapped(ret, e, message, sl!("big_m_constraint_ids"))'),
+                       dict(params='e', typed='e: ParseError', ret='ParseError', ensures='wrapped(ret, e, message, sl!("decision_variables"))')],
+             rsubs=[(r'let mut variables = BTreeSet::new\(\);', 'let mut variables: BTreeSet<VariableID> = BTreeSet::new();', 1),
+                    (r'let mut big_m_constraint_ids = BTreeSet::new\(\);', 'let mut big_m_constraint_ids: BTreeSet<ConstraintID> = BTreeSet::new();', 1)],
+             loops=[dict(kind='for', it='it_1', inv='''invariant
+                forall|i: int| 0 <= i < it_1.index@ ==> constraints@.contains_key(ConstraintID(#[trigger] self.big_m_constraint_ids[i])),
+                forall|i: int, j: int| 0 <= i < j < it_1.index@ ==> #[trigger] self.big_m_constraint_ids[i] != #[trigger] self.big_m_constraint_ids[j],
+                forall|k: ConstraintID| #[trigger] big_m_constraint_ids@.contains(k) <==> exists|i: int| 0 <= i < it_1.index@ && #[trigger] self.big_m_constraint_ids[i] == k.0,''', body_proof=' proof { assert(*id == self.big_m_constraint_ids@[it_1.index@ as int]); }'),
+                    dict(kind='for', it='it_2', inv=VAR_LOOP % dict(it='it_2'), body_proof=' proof { assert(*id == self.decision_variables@[it_2.index@ as int]); }')])
+
+
+def hints_parse():
+    PAS = '''(ret is Ok <==> c.p_ok(*context)) && (ret is Ok ==> c.p_out(*context, ret->Ok_0))
+            && (ret is Err ==> exists|e: ParseError| #![trigger c.p_err(*context, e)] c.p_err(*context, e) && wrapped(ret->Err_0, e, message, sl!("%s")))'''
+    return P('Parse for v1::ConstraintHints', 'instance.rs', 'v1::ConstraintHints', 'ConstraintHints', HINT_CTX, '''
+    open spec fn p_ok(self, c: HintCtx) -> bool {
+        (forall|i: int| 0 <= i < self.one_hot_constraints.len() ==> (#[trigger] self.one_hot_constraints[i]).p_ok(c))
+        && (forall|i: int| 0 <= i < self.sos1_constraints.len() ==> (#[trigger] self.sos1_constraints[i]).p_ok(c))
+    }
+    open spec fn p_out(self, c: HintCtx, o: ConstraintHints) -> bool {
+        &&& o.one_hot_constraints.len() == self.one_hot_constraints.len() && o.sos1_constraints.len() == self.sos1_constraints.len()
+        &&& forall|i: int| 0 <= i < self.one_hot_constraints.len() ==> (#[trigger] self.one_hot_constraints[i]).p_out(c, o.one_hot_constraints[i])
+        &&& forall|i: int| 0 <= i < self.sos1_constraints.len() ==> (#[trigger] self.sos1_constraints[i]).p_out(c, o.sos1_constraints[i])
+    }
+    open spec fn p_err(self, c: HintCtx, e: ParseError) -> bool {
+        ||| exists|i: int, e0: ParseError| #![trigger self.one_hot_constraints[i].p_err(c, e0)] 0 <= i < self.one_hot_constraints.len() && !self.one_hot_constraints[i].p_ok(c)
+                && self.one_hot_constraints[i].p_err(c, e0) && wrapped(e, e0, sl!("ommx.v1.ConstraintHints"), sl!("one_hot_constraints"))
+        ||| exists|i: int, e0: ParseError| #![trigger self.sos1_constraints[i].p_err(c, e0)] 0 <= i < self.sos1_constraints.len() && !self.sos1_constraints[i].p_ok(c)
+                && self.sos1_constraints[i].p_err(c, e0) && wrapped(e, e0, sl!("ommx.v1.ConstraintHints"), sl!("sos1_constraints"))
+    }
+''', sig='fn parse(self, context: &Self::Context) -> Result<Self::Output, ParseError>', header='fn parse(self, context: &Self::Context) -> (r: Result<Self::Output, ParseError>)',
+             closures=[dict(params='c', typed='c: v1::OneHot', ret='Result<OneHot, ParseError>', ensures=PAS % 'one_hot_constraints'),
+                       dict(params='c', typed='c: v1::Sos1', ret='Result<Sos1, ParseError>', ensures=PAS % 'sos1_constraints')],
+             rsubs=[(r'self\.one_hot_constraints\.into_iter\(\)\.map\((\|c\| [^;]*?)\)\.collect::<Result<Vec<_>, ParseError>>\(\)', r'try_map_collect(self.one_hot_constraints, \1)', 1),
+                    (r'self\.sos1_constraints\.into_iter\(\)\.map\((\|c\| [^;]*?)\)\.collect::<Result<_, ParseError>>\(\)', r'try_map_collect(self.sos1_constraints, \1)', 1)])
+
+
+def instance_try_from():
+    return Unit('TryFrom<v1::Instance> for Instance', 'instance.rs', 'try_from', impl=r'impl TryFrom<v1::Instance> for Instance \{', anyhow=False, strlit=True,
+                sig='fn try_from(value: v1::Instance) -> Result<Self, Self::Error>',
+                pre='impl vstd::std_specs::convert::TryFromSpecImpl<v1::Instance> for Instance { open spec fn obeys_try_from_spec() -> bool { false } open spec fn try_from_spec(v: v1::Instance) -> Result<Self, ParseError> { arbitrary() } }\n',
+                wrap=('impl TryFrom<v1::Instance> for Instance { type Error = ParseError;', '}'),
+                header='''#[verifier::loop_isolation(false)]
+fn try_from(value: v1::Instance) -> (r: Result<Self, Self::Error>)
+    ensures
+        // accepted ==> every part is well-formed and the typed view carries the same content
+        r is Ok ==> typed_parts_ok(value, r->Ok_0),
+        // rejected ==> a violated rule, reported under ommx.v1.Instance[<field>] (never rejects a message whose parts are all well-formed)
+        r is Err ==> typed_reject(value, r->Err_0),
+        // the validation rule "every used variable is defined" must hold for accepted messages too
+        r is Ok ==> typed_used_defined(value),''',
+                closures=[dict(params='e', typed='e: ParseError', ret='ParseError', ensures='wrapped(ret, e, message, sl!("decision_variable_dependency"))')],
+                rsubs=[(r'in value\.decision_variable_dependency \{', 'in hashmap_into_vec(value.decision_variable_dependency) {', 1),
+                       (r'let mut decision_variable_dependency = HashMap::new\(\);', 'let mut decision_variable_dependency: HashMap<VariableID, Function> = HashMap::new();', 1)],
+                loops=[dict(kind='for', it='it_1', rebind='(__e.0, __e.1.vclone())', body_proof=''' proof { let n = it_1.index@ as int; assert(*__e == __h1[n]);
+                assert(deps0.contains_key(__h1[n].0) && deps0[__h1[n].0] == __h1[n].1);
+                assert(value.decision_variables.p_out((), decision_variables));
+                if !decision_variables@.contains_key(VariableID(__h1[n].0)) || !__h1[n].1.p_ok(()) { assert(!deps_ok(deps0, decision_variables@)); } }''', inv='''invariant
+                forall|j: int| 0 <= j < it_1.index@ ==> decision_variables@.contains_key(VariableID((#[trigger] __h1[j]).0)) && __h1[j].1.p_ok(())
+                    && decision_variable_dependency@.contains_key(VariableID(__h1[j].0)) && __h1[j].1.p_out((), decision_variable_dependency@[VariableID(__h1[j].0)]),
+                forall|x: VariableID| #[trigger] decision_variable_dependency@.contains_key(x) ==> exists|j: int| 0 <= j < it_1.index@ && (#[trigger] __h1[j]).0 == x.0,''')],
+                proofs=[(('before', r'let mut decision_variable_dependency'), 'let ghost deps0 = value.decision_variable_dependency@;\n        ')])
